@@ -637,15 +637,15 @@ def run(ctx):
   ctx.notes['metric_classes'] = sorted(found)
   install_contract(ctx, jax, fedjax.metrics)
   nshards = ctx.nshards
-  per_shard = 2 if ctx.quick else 4
+  per_shard = 1 if ctx.quick else 4          # worlds per shard (each world costs ~25 s of jit compiles)
   W = nshards * per_shard
-  n_cases = W * (50 if ctx.quick else 240)
+  n_cases = W * (90 if ctx.quick else 120)
   worlds = {}
   for cid, rng in ctx.cases('world', n_cases):
     i = int(cid.split('/')[1])
     w = i % W
     if w not in worlds:
-      group = mg.CLS if (w // nshards) % 2 == 0 else mg.SEQ
+      group = mg.CLS if (w // nshards + w % nshards) % 2 == 0 else mg.SEQ   # both groups in every pair of shards
       worlds[w] = World(ctx, fedjax, jax, jnp, w, group)
       check_zero(ctx, worlds[w])
     run_case(ctx, fedjax, jax, jnp, cd, worlds[w], rng, debug_case=(i // W) % 7 == 0)
